@@ -143,6 +143,9 @@ func Random(seed int64, idx int, opt RandOpt) *Entry {
 			noneof = 1 + r.Intn(2)
 			for k := 0; k < noneof; k++ {
 				on := fmt.Sprintf("Pick%s", wordsB[(i*3+k)%len(wordsB)])
+				if r.Intn(4) == 0 {
+					on = fmt.Sprintf("TLS%sID", wordsB[(i*3+k)%len(wordsB)]) // acronyms in a oneof name
+				}
 				if r.Intn(3) == 0 {
 					on = strings.ToLower(fmt.Sprintf("pick_%s", wordsB[(i*3+k)%len(wordsB)]))
 				}
